@@ -121,6 +121,8 @@ func c13LoadVariant(sc *Scenario, data []byte, script []simio.ReadStep, what str
 			lr.Prog = p
 		case 3:
 			lr.Prog, lr.Err = bcl.LoadProg(&simio.SimReader{Data: data, Script: MarkEOF(script, len(data)), EndErr: io.ErrUnexpectedEOF}, "n", bcl.OptOutput(lr.Out), bcl.OptLogger(lr.Log))
+		case 5: // what cmd/bcl passes: something that can also be closed and has a name
+			lr.Prog, lr.Err = bcl.LoadProg(&fileLike{SimReader: simio.SimReader{Data: data, Script: script}}, "n", bcl.OptOutput(lr.Out), bcl.OptLogger(lr.Log))
 		default:
 			lr.Prog, lr.Err = bcl.LoadProg(&simio.SimReader{Data: data, Script: script, EndErr: errDisk}, "n", bcl.OptOutput(lr.Out), bcl.OptLogger(lr.Log))
 		}
@@ -141,7 +143,16 @@ func c13LoadVariant(sc *Scenario, data []byte, script []simio.ReadStep, what str
 	c13Judge(sc, lr, data, script, what+" ("+c13VariantName[variant]+")", o, sig, map[string]int{"variant": variant})
 }
 
-var c13VariantName = []string{"", "Load into a used Prog", "second Load into the same Prog", "reader ends with io.ErrUnexpectedEOF", "reader ends with an I/O error"}
+var c13VariantName = []string{"", "Load into a used Prog", "second Load into the same Prog", "reader ends with io.ErrUnexpectedEOF", "reader ends with an I/O error", "file-like reader (Read, Close, Name)"}
+
+// fileLike is a reader that also has Close and Name, like the *os.File cmd/bcl hands to LoadProg.
+type fileLike struct {
+	simio.SimReader
+	closes int
+}
+
+func (f *fileLike) Close() error { f.closes++; return nil }
+func (f *fileLike) Name() string { return "dump.bcb" }
 var errDisk = errors.New("simio: read failed (EIO)")
 
 func c13Judge(sc *Scenario, lr *loadResult, data []byte, script []simio.ReadStep, what string, o *Outcome, sig string, extra map[string]int) {
@@ -260,7 +271,7 @@ func (c13) Run(t *testing.T, sc *Scenario) *Outcome {
 			// the options LoadProg takes are part of the call: the listing must not be attempted on a failed load
 			c13LoadOpt(sc, torn, script, what+" (seeded partition, zero reads, data+EOF)", o, "prefix", k%2 == 1)
 			if k%3 == 0 || k > len(full)-40 {
-				c13LoadVariant(sc, torn, nil, what, o, "prefix", 1+(k/3)%4)
+				c13LoadVariant(sc, torn, nil, what, o, "prefix", 1+(k/3)%5)
 			}
 			if len(o.Violations) > 0 {
 				break
